@@ -16,12 +16,14 @@ a = sys.argv[1:]
 pid = a[0]
 checks = [pid]
 tier = "quick"
+rnd = ""
 i = 1
 while i < len(a):
     if a[i] == "--checks": checks = a[i + 1].split(","); i += 2
+    elif a[i] == "--round": rnd = a[i + 1]; i += 2
     elif a[i] == "--tier": tier = a[i + 1]; i += 2
     else: i += 1
-wt, out = "/tmp/wt/" + pid, "/tmp/wt/out_" + pid
+wt, out = "/tmp/wt/" + pid, "/tmp/wt/out%s_%s" % (rnd, pid)
 
 def sh(cmd, cwd=None, timeout=3600):
     r = subprocess.run(cmd, shell=True, cwd=cwd, capture_output=True, text=True, timeout=timeout)
@@ -52,7 +54,7 @@ for k in sorted(os.listdir(out)):
     d = os.path.join(out, k)
     if not (k.startswith("m") and os.path.exists(os.path.join(d, "patch.diff"))):
         continue
-    rec = {"id": "%s-%s" % (pid, k)}
+    rec = {"id": "%s-%s%s" % (pid, ("r%s" % rnd) if rnd else "", k)}
     sh("git checkout -- . && git clean -fdq -e _build", cwd=wt)
     rc, o = sh("git apply --whitespace=nowarn %s/patch.diff" % d, cwd=wt)
     if rc != 0:
@@ -107,5 +109,5 @@ for k in sorted(os.listdir(out)):
         meta["checks_run"] = chk
         meta["caught_by"] = rec["caught_by"]
         json.dump(meta, open(os.path.join(dst, "meta.json"), "w"), indent=1)
-json.dump(results, open("/tmp/wt/confirm_%s.json" % pid, "w"), indent=1)
+json.dump(results, open("/tmp/wt/confirm%s_%s.json" % (rnd, pid), "w"), indent=1)
 print("SUMMARY", pid, [(r["id"], r.get("confirmed"), r.get("caught_by")) for r in results])
